@@ -94,6 +94,18 @@ func c12Case(seed int64, idx int) (packedCase, int) {
 			fmt.Fprintf(&sb, "func (r *%s) M%dx%d() {\n\tfmt.Println(\"M%d\", r != nil)\n}\n\n", T, idx, m, m)
 		}
 	}
+	// a method with a variadic tail that stores what it was given in a field (called below through locals, a field
+	// and an alias, with no, one and several surplus arguments and with a spread slice)
+	vf := -1
+	for i := 0; i < nf; i++ {
+		if types[i].name == "int" {
+			vf = i
+			break
+		}
+	}
+	if vf >= 0 {
+		fmt.Fprintf(&sb, "func (r *%s) Acc%d(k int, xs ...int) int {\n\tfor _, x := range xs {\n\t\tr.%s += x\n\t}\n\tr.%s += k\n\treturn r.%s*10 + len(xs)\n}\n\n", T, idx, fname(vf), fname(vf), fname(vf))
+	}
 	// a method that guards its receiver, and a second type declared after all of T's names, both called on nil references
 	fmt.Fprintf(&sb, "func (r *%s) NS%d(k int) int {\n\tif r == nil {\n\t\treturn -k\n\t}\n\treturn k\n}\n\n", T, idx)
 	fmt.Fprintf(&sb, "type U%d struct {\n\tV%d int\n\tLink%d *U%d\n}\n\n", idx, idx, idx, idx)
@@ -131,6 +143,9 @@ func c12Case(seed int64, idx int) (packedCase, int) {
 		fmt.Fprintf(&sb, "\tfmt.Println(\"nilnext\", c.Next%d.NS%d(5))\n", idx, idx)
 	}
 	fmt.Fprintf(&sb, "\tfmt.Println(\"lt\", lt%d(%d))\n", idx, idx%7)
+	if vf >= 0 {
+		fmt.Fprintf(&sb, "\tsp := []int{2, 3}\n\tfmt.Println(\"acc\", a.Acc%d(1), a.Acc%d(1, 5), p.Acc%d(1, 5, 6), q.Acc%d(2, sp...), c.Acc%d(0, sp[:1]...))\n\tfmt.Println(\"accf\", a.%s, b.%s)\n", idx, idx, idx, idx, idx, fname(vf), fname(vf))
+	}
 	if hasNext {
 		fmt.Fprintf(&sb, "\ta.Next%d = b\n\tb.Next%d = c\n", idx, idx)
 	}
@@ -477,7 +492,7 @@ func c12PkgCase(seed int64, idx int) core.RefCase {
 				types = append(types, d)
 			}
 		}
-		files[dir+"/a_ops.go"] = hdr + strings.Join(ops, "\n\n") + "\n"
+		files[dir+"/"+core.Pick(rng, []string{"a_ops.go", "latest.go", "contest.go", "a_ops.go"})] = hdr + strings.Join(ops, "\n\n") + "\n"
 		files[dir+"/types.go"] = "package " + name + "\n\n" + strings.Join(types, "\n\n") + "\n"
 	}
 	files := map[string]string{}
